@@ -541,6 +541,148 @@ def gen_tp_total(rng):
     return [side] + bs
 
 
+
+# ------------------------------------------------------------------ packet number reconstruction (RFC 9000 A.3)
+PN_WINS = [1 << 8, 1 << 16, 1 << 24, 1 << 32]
+
+
+def clampv(v):
+    return max(0, min(VMAX, v))
+
+
+def gen_pnx(rng):
+    r = rng.random()
+    base = rng.choice([0, 0, VMAX, VMAX, rv(rng, rng.choice([8, 16, 24, 32, 40, 62]))])
+    near = lambda: clampv(base + rng.choice([-1, 1]) * rng.choice([0, 1, 2, rng.randrange(1 << 8), rng.randrange(1 << 16), rng.randrange(1 << 24), rng.randrange(1 << 33)]))
+    if r < 0.45:
+        tag = rng.randrange(4)
+        w = 1 << (8 * (tag + 1))
+        t = rng.choice([0, 1, w - 1, w // 2, w // 2 - 1, w // 2 + 1, rng.randrange(w), near() % w])
+        return [0, near(), tag, t]
+    pn = near()
+    la = clampv(pn - rng.choice([0, 1, 2, 127, 128, 32767, 32768, (1 << 23) - 1, 1 << 23, (1 << 31) - 1, 1 << 31, rng.randrange(1 << 8), rng.randrange(1 << 16), rng.randrange(1 << 32)]))
+    d = 2 * (pn - la)
+    w = PN_WINS[0] if d <= 255 else PN_WINS[1] if d <= 65535 else PN_WINS[2] if d <= 16777215 else PN_WINS[3]
+    k = rng.random()
+    if k < 0.6:     # a receiver state inside the A.3 window: must give pn back
+        L = clampv(pn - 1 + rng.choice([0, 1, -1, w // 2 - 1, -(w // 2), w // 2 - 2, -(w // 2) + 1, rng.randrange(-(w // 2), w // 2)]))
+    else:
+        L = near()
+    return [1, la, pn, L]
+
+
+def fixed_pnx(tier):
+    out = []
+    # dense around 2^62 - 1 and around 0: every window size, truncated values and largest at the edges
+    edges = [0, 1, 2, 3]
+    for tag in range(4):
+        w = 1 << (8 * (tag + 1))
+        hw = w // 2
+        offs = sorted({0, 1, 2, hw - 2, hw - 1, hw, hw + 1, hw + 2, w - 2, w - 1, w, w + 1, w + 2, 2 * w - 1, 2 * w, 2 * w + 1})
+        ts = sorted({0, 1, 2, hw - 1, hw, hw + 1, w - 3, w - 2, w - 1})
+        for o in offs:
+            for L in (o, VMAX - o):
+                if 0 <= L <= VMAX:
+                    for t in ts:
+                        out.append([0, L, tag, t])
+                    # the truncation of numbers just around L
+                    for d in (-hw - 1, -hw, -hw + 1, -1, 0, 1, 2, hw - 1, hw, hw + 1, hw + 2):
+                        v = L + 1 + d
+                        if 0 <= v <= VMAX:
+                            out.append([0, L, tag, v % w])
+        # encoder -> bytes -> decoder, receiver anywhere in (and just outside) the window
+        for pn in (VMAX, VMAX - 1, VMAX - hw, VMAX - w, VMAX - w + 1, w, w - 1, hw, 1, 0):
+            for dla in (0, 1, hw // 2 - 1, hw // 2, (hw - 1) // 2):
+                la = pn - dla
+                if la < 0:
+                    continue
+                for dl in (-hw - 1, -hw, -hw + 1, -2, -1, 0, 1, hw - 2, hw - 1, hw, hw + 1):
+                    L = pn - 1 + dl
+                    if 0 <= L <= VMAX:
+                        out.append([1, la, pn, L])
+    out.append([0, VMAX - 1, 0, 0])
+    return out
+
+
+
+# ------------------------------------------------------------------ capacity helpers (try_fit)
+def vlen_py(v):
+    return 1 if v < 1 << 6 else 2 if v < 1 << 14 else 4 if v < 1 << 30 else 8
+
+
+FIT_LENS = [0, 1, 2, 62, 63, 64, 65, 66, 16382, 16383, 16384, 16385, 16386, (1 << 30) - 2, (1 << 30) - 1, 1 << 30, (1 << 30) + 1, (1 << 30) + 2]
+FIT_IDS = [0, 4, 63, 64, 16383, 16384, (1 << 30) - 1, 1 << 30, VMAX]
+
+
+def fit_fixed(kind, sid, off):
+    return 1 + vlen_py(off) if kind == 1 else 1 + vlen_py(sid) + (vlen_py(off) if off else 0)
+
+
+def gen_fit(rng):
+    kind = rng.randrange(2)
+    sid = rng.choice(FIT_IDS) if rng.random() < 0.7 else rv(rng)
+    off = rng.choice([0, 0, 1, 63, 64, 16384, 1 << 30, VMAX]) if rng.random() < 0.7 else rv(rng)
+    dlen = rng.choice(FIT_LENS) if rng.random() < 0.7 else rng.randrange(1 << rng.choice([4, 7, 10, 15, 20, 31]))
+    fixed = fit_fixed(kind, sid, off)
+    r = rng.random()
+    if r < 0.5:       # around header + prefix + payload
+        cap = fixed + dlen + rng.choice([0, 1, 2, 4, 8]) + rng.randrange(-4, 5)
+    elif r < 0.7:     # the remaining capacity itself at a varint boundary
+        cap = fixed + rng.choice(FIT_LENS) + rng.randrange(-3, 4)
+    elif r < 0.8:     # around the header
+        cap = fixed + rng.randrange(-3, 4)
+    else:
+        cap = rng.randrange(1 << rng.choice([3, 6, 11, 14, 16, 31]))
+    return [kind, sid, off, dlen, rng.randrange(2), max(0, cap)]
+
+
+def fixed_fit(tier):
+    out = []
+    for kind in (0, 1):
+        for sid in ((0, 4, 16384, VMAX) if kind == 0 else (0,)):
+            for off in (0, 1, 16384, VMAX):
+                fixed = fit_fixed(kind, sid, off)
+                for cap in range(0, fixed + 4):
+                    for dlen in (0, 1, 100):
+                        out.append([kind, sid, off, dlen, 0, cap])
+                for dlen in FIT_LENS:
+                    # capacities within +-3 of header+payload, of header+prefix+payload for every prefix size,
+                    # and of every varint boundary of the remaining capacity
+                    caps = set()
+                    for extra in (0, 1, 2, 4, 8):
+                        for d in range(-3, 4):
+                            caps.add(fixed + dlen + extra + d)
+                    for b in (64, 16384, 1 << 30):
+                        for d in range(-3, 4):
+                            caps.add(fixed + b + d)
+                            caps.add(fixed + b + vlen_py(b) + d)
+                    for cap in sorted(caps):
+                        if cap >= 0:
+                            out.append([kind, sid, off, dlen, 1 if dlen % 2 else 0, cap])
+    out.append([0, 4, 0, 64, 0, 67])
+    return out
+
+
+def hist_fit(cases, outs):
+    h = {"stream_ok": 0, "stream_err": 0, "crypto_ok": 0, "crypto_err": 0, "last_frame": 0, "trimmed": 0, "materialized": 0}
+    for c, o in zip(cases, outs):
+        t = o.split()
+        if not t:
+            continue
+        k = "stream" if c[0] == 0 else "crypto"
+        if t[0] == "1":
+            h[k + "_ok"] += 1
+            if t[2] == "1":
+                h["last_frame"] += 1
+            if int(t[1], 16) < c[3]:
+                h["trimmed"] += 1
+            if t[4] != "-1":
+                h["materialized"] += 1
+        else:
+            h[k + "_err"] += 1
+    return h
+
+
 registry.register("C05", {
     "gen": ["C05"],
     "props_file": "props/C05.v",
@@ -563,6 +705,13 @@ registry.register("C05", {
         {"name": "pn", "gen": gen_pn, "fixed": fixed_pn, "quick": 10000, "thorough": 200000,
          "valid": lambda c: len(c) == 2 and all(0 <= v <= VMAX for v in c),
          "nontrivial": lambda case, out: len(out) >= 2 and out[0] == 1},
+        {"name": "pnx", "gen": gen_pnx, "fixed": fixed_pnx, "quick": 30000, "thorough": 500000,
+         "valid": lambda c: len(c) == 4 and c[0] in (0, 1) and all(0 <= v <= VMAX for v in c[1:]),
+         "nontrivial": lambda case, out: len(out) >= 1 and (case[0] == 0 or out[0] == 1)},
+        {"name": "fit", "gen": gen_fit, "fixed": fixed_fit, "quick": 30000, "thorough": 500000,
+         "valid": lambda c: len(c) == 6 and c[0] in (0, 1) and all(0 <= v <= VMAX for v in c[1:3]) and 0 <= c[3] < 1 << 40 and c[4] in (0, 1) and 0 <= c[5] < 1 << 40,
+         "nontrivial": lambda case, out: len(out) >= 2 and out[0] == 1,
+         "histogram": hist_fit},
         {"name": "tparams", "gen": gen_tparams, "fixed": fixed_tparams, "quick": 20000, "thorough": 300000,
          "valid": lambda c: False,      # no shrinking: deleting bytes could turn value bytes into known ids (C14's domain)
          "nontrivial": lambda case, out: len(case) >= 10,
